@@ -32,9 +32,11 @@ def _alarm(signum, frame):
 
 
 def crash_signature(text: str, mode: str) -> str | None:
-    """(exception type, innermost three distinct non-dispatch mypy frames)."""
+    """(exception type, innermost two distinct non-dispatch mypy frames)."""
     if "Traceback (most recent call last)" not in text and "INTERNAL ERROR" not in text and "ESCAPED-EXCEPTION" not in text:
         return None
+    if "maximum semantic analysis iteration count reached" in text:
+        return "%s|semanal-max-iterations" % mode
     frames = re.findall(r'File "[^"]*?/(mypyc?/[\w/]+\.py)", line \d+, in (\w+)', text)
     keep = []
     for f, fn in reversed(frames):
@@ -43,16 +45,16 @@ def crash_signature(text: str, mode: str) -> str | None:
         item = "%s:%s" % (f.replace("mypy/", "", 1) if f.startswith("mypy/") else f, fn)
         if item not in keep:
             keep.append(item)
-        if len(keep) == 3:
+        if len(keep) == 2:
             break
     exc = "UnknownError"
-    lines = [l for l in text.strip().splitlines() if l.strip()]
-    for l in reversed(lines):
-        m = re.match(r"^([A-Za-z_][\w.]*(Error|Exception|Exit|Interrupt|Warning)?)(:|$)", l.strip())
-        if m and not l.startswith((" ", "\t")) and "note:" not in l and "error:" not in l.split(":")[0]:
-            cand = m.group(1)
-            if cand[0].isupper() or "." in cand:
-                exc = cand.split(".")[-1]
+    lines = text.splitlines()
+    last_file = max([i for i, l in enumerate(lines) if l.startswith('  File "')] or [-1])
+    for l in lines[last_file + 1 :]:
+        if l and not l.startswith((" ", "\t")):
+            m = re.match(r"^([A-Za-z_][\w.]*)(:|$)", l)
+            if m and not re.match(r"^[\w./\\-]+\.pyi?:", l):
+                exc = m.group(1).split(".")[-1]
                 break
     return "%s|%s|%s" % (mode, exc, "<-".join(keep))
 
@@ -92,14 +94,14 @@ def oracle(files, out, err, st):
     if st not in (0, 1, 2):
         return ("bad-exit-status", "status %s\n%s" % (st, text[-2000:]))
     ds, rest = diag.parse(out)
-    rest = [r for r in rest if not r.startswith(("Found ", "Success"))]
+    rest = [r for r in rest if not r.startswith(("Found ", "Success", "Warning: "))]
     if rest:
         return ("malformed-output", "\n".join(rest[:5]))
     from vp.props.c14 import check_positions
 
     bad = [(k, x) for k, x in check_positions(files, ds) if not (x.code == "syntax" or x.msg.lower().startswith("invalid syntax"))]
     if bad:
-        return ("position", "%s %s" % (bad[0][0], tuple(bad[0][1])))
+        return ("position|%s|%s" % (bad[0][0], bad[0][1].code or "nocode"), "%s %s" % (bad[0][0], tuple(bad[0][1])))
     return None
 
 
